@@ -86,20 +86,72 @@ def make_resolver(ti, rules, ser, log):
 
 
 @contextlib.contextmanager
-def _recording(cls, store):
-    orig = cls.__init__
+def _recording(ti, store):
+    """Keep every Analyzer the real FunctionVisitor creates, a snapshot of the closure types it starts from, and watch
+    its visits for NON-MONOTONE transitions: an assignment target that was left with its old (stale) type set at one
+    visit because the value's type was unknown, and is strongly updated at a later visit of the same node.  (With a
+    monotone transfer function the chaotic iteration only ever grows the maps; such a transition is the one way the
+    pinned transfer function is not monotone.)  Observed facts about the run, not about whether anything failed."""
+    cls = ti.Analyzer
+    orig_init, orig_visit, orig_inf_init = cls.__init__, cls.visit_node, ti.StmtInferrer.__init__
+    last = {}
 
     def init(self, *a, **k):
-        orig(self, *a, **k)
+        orig_init(self, *a, **k)
         # closure_types is a live dict (the CLOSURE_TYPES annotation): later analyses of sibling functions keep adding
         # to it; what THIS analysis sees is its content now
         self._closure_snapshot = {k_: set(v) for k_, v in self.closure_types.items()}
+        self._stale_kept = {}
+        self._nonmono = set()
+        self._visits = 0
         store.append(self)
-    cls.__init__ = init
+
+    def inf_init(self, *a, **k):
+        orig_inf_init(self, *a, **k)
+        last['inf'] = self
+
+    def visit_node(self, node):
+        res = orig_visit(self, node)
+        self._visits += 1
+        if self._visits >= visit_cap(len(self.graph.index)):
+            raise AnalysisTimeout()       # deterministic cap: converging runs on these programs need a few hundred visits
+        a = node.ast_node
+        inf = last.get('inf')
+        if isinstance(a, ast.Assign) and inf is not None:
+            typed = {str(k_) for k_ in inf.new_symbols}
+            tin = {str(k_) for k_ in inf.types_in.types}
+            kept = self._stale_kept.setdefault(id(node), set())
+            for x in stored_names(a):
+                if x in typed:
+                    if x in kept:
+                        self._nonmono.add(x)
+                elif x in tin:
+                    kept.add(x)
+        return res
+    cls.__init__, cls.visit_node, ti.StmtInferrer.__init__ = init, visit_node, inf_init
     try:
         yield
     finally:
-        cls.__init__ = orig
+        cls.__init__, cls.visit_node, ti.StmtInferrer.__init__ = orig_init, orig_visit, orig_inf_init
+
+
+def visit_cap(nnodes):
+    return 3000 + 300 * nnodes
+
+
+class OrderedFrozenSet(frozenset):
+    """A frozenset that iterates in a fixed order.  `cfg.Node.next` is a frozenset whose iteration order (by object
+    address) is unspecified and differs from process to process; the work list of GraphVisitor visits successors in
+    that order.  The harness fixes ONE legal order (ascending serial id of the successor's AST node) so that runs are
+    reproducible and can be compared step by step with the model, which uses the same order."""
+
+    def __new__(cls, items, key):
+        self = super().__new__(cls, items)
+        self._order = sorted(items, key=key)
+        return self
+
+    def __iter__(self):
+        return iter(self._order)
 
 
 def _index_sexp(x, out):
@@ -136,17 +188,24 @@ class Analysis:
         ctx = m['transformer'].Context(m['transformer'].EntityInfo(name=fname, source_code=source, source_file='<c19>',
                                                                    future_features=(), namespace=namespace), None, None)
         self.analyzers = []
+        self.diverged = None
         try:
             node = m['qual_names'].resolve(fnode)
             node = m['activity'].resolve(node, ctx)
             self.graphs = m['cfg'].build(node)
+            for g in self.graphs.values():
+                for cn in g.index.values():
+                    cn.next = OrderedFrozenSet(cn.next, key=lambda x: self.ser.id_of(x.ast_node) or 0)
             node = m['rd'].resolve(node, ctx, self.graphs)
             node = m['fnd'].resolve(node, ctx, self.graphs)
-            with _recording(m['ti'].Analyzer, self.analyzers), time_limit(20):
+            with _recording(m['ti'], self.analyzers), time_limit(300):
                 node = m['ti'].resolve(node, ctx, self.graphs, self.resolver)
+        except AnalysisTimeout as e:
+            if not self.analyzers:
+                raise
+            self.diverged = self.analyzers[-1]          # the analysis of this function hit the visit cap
         except (NotImplementedError, AssertionError, AttributeError, KeyError, ValueError, TypeError) as e:
             raise Unsupported('%s: %s' % (type(e).__name__, e))
-        assert node is fnode
         # For-statement of each iter node
         self.for_of_iter = {}
         self.parent_fn = {}
@@ -154,6 +213,7 @@ class Analysis:
             if isinstance(n, ast.For):
                 self.for_of_iter[id(n.iter)] = n
         self.fns = [self._fn_info(a) for a in self.analyzers]
+        self.nonmono = {str(a.scope.function_name): sorted(a._nonmono) for a in self.analyzers if a._nonmono}
         self.by_def = {fi.def_id: fi for fi in self.fns}
         # annotations on the whole tree
         self.types_anno = {}
@@ -173,6 +233,8 @@ class Analysis:
         fi = FnInfo()
         fdef = next(k for k, g in self.graphs.items() if g is an.graph)
         fi.fdef, fi.an = fdef, an
+        fi.diverged = an is self.diverged
+        fi.visits = an._visits
         fi.def_id = ser.id_of(fdef)
         sc = an.scope
         fi.env = {'fname': str(sc.function_name), 'is_local': sc.parent.parent is not None,
@@ -333,6 +395,7 @@ def _own_exprs(s):
     return [s]
 
 
+DIVERGENCE_CLASS = 'no_fixed_point_nonmonotone_untyped_assignment'
 CLASS_ORDER = ['retyped_by_untracked_binder', 'retyped_by_untyped_assignment', 'nonlocal_rebound_in_callee',
                'retyped_by_local_call_side_effect', 'captured_var_rebound_by_calling_statement',
                'local_function_called_from_sibling']
